@@ -391,6 +391,9 @@ InitFilterCopyBPP (rfbClient* client, int rw, int rh)
   } else {
     client->cutZeros = FALSE;
   }
+#else
+  /* cutZeros belongs to the 32-bit decoder and must not survive a change of the pixel format */
+  client->cutZeros = FALSE;
 #endif
 
   return BPP;
